@@ -93,7 +93,7 @@ def gen_pd(rng, tier, independent=False):
     return {"kx": kx, "ky": ky, "kz": kz, "rows": rows, "lam": lam, "num": rng.choice([0.5, 2.0, -1.5, 0, 0.0, 1, 1.0]), "alpha": rng.choice([0.01, 0.05, 0.5]),
             "dtype": rng.choice(["int", "int", "category"]), "independent": independent,
             # the statistic does not depend on how states are labelled nor on the frame's index
-            "edit": rng.random() < .4, "relabel": rng.choice([None, None, rng.randrange(10 ** 6)]), "index": rng.choice(["range", "range", "shuffled", "reversed", "str"])}
+            "zform": rng.randrange(5), "edit": rng.random() < .4, "relabel": rng.choice([None, None, rng.randrange(10 ** 6)]), "index": rng.choice(["range", "range", "shuffled", "reversed", "str"])}
 
 
 def gen_indep(rng, tier):
@@ -148,6 +148,9 @@ def make_df(case):
 def call_test(case, df, X, Y, Z, boolean):
     from pgmpy.estimators import CITests as T
     lam = case["lam"]
+    # the conditioning set in any iterable form (list, tuple, generator, one-shot iterator, reversed view): the same test
+    zl = list(Z)
+    Z = [zl, tuple(zl), (z for z in zl), iter(zl), reversed(zl)][case.get("zform", 0) % 5]
     kw = {"significance_level": case["alpha"]}
     if lam in ("chi_square", "g_sq", "log_likelihood", "modified_log_likelihood"):
         return getattr(T, lam)(X, Y, Z, df, boolean=boolean, **kw)
